@@ -173,6 +173,10 @@ fn gen(rng: &mut Rng, n: usize, tier: &str) -> Vec<Req> {
         }
         out.push(Req::new(format!("c06.resolve {reps} {} {} {}", sc.ver, rng.below(8), sc.payload()), "room"));
     }
+    for _ in 0..(n / 10).max(3) {
+        let sc = sr::gen_overlay(rng);
+        out.push(Req::new(format!("c06.resolve {reps} {} {} {}", sc.ver, rng.below(8), sc.payload()), "overlay"));
+    }
     eprintln!("generator statistics: {stats:?}");
     out
 }
